@@ -90,6 +90,10 @@ func NewParameterPool[T any](
 				"failed to persist generated parameter: [%w]",
 				err,
 			)
+			// Do not add a parameter that could not be persisted to the
+			// pool: the persisted handle is nil and GetNow would
+			// dereference it.
+			return
 		}
 
 		select {
